@@ -481,6 +481,51 @@ def gen_case_defaults(rng, nq=10):
     return {"sig": sig, "base": [{"vec": v, "B": B, "A": A} for v, (B, A) in zip(bv, conds)], "qs": qs, "via": "api"}
 
 
+def gen_case_dups(rng, nq=8):
+    """Bases that state a conditional two or three times (identical formulas, separate keys) next to others of the same
+    layer, with queries whose two sides differ in WHICH conditional they falsify: the doubled one or a single one. Wherever
+    falsified conditionals are counted (lex), summed (c-representations) or collected in sets, a duplicate must count."""
+    sig = SIG[:3]
+    lit = lambda: (M.V(rng.choice(sig)) if rng.random() < 0.5 else M.Not(M.V(rng.choice(sig))))
+    for _ in range(300):
+        k = rng.choice([2, 3, 3])
+        conds, seen = [], set()
+        while len(conds) < k:
+            c = (lit(), M.TOP if rng.random() < 0.5 else lit())
+            if M.render_cond(*c) not in seen:
+                seen.add(M.render_cond(*c))
+                conds.append(c)
+        d = rng.randrange(k)
+        base = conds + [conds[d]] * rng.choice([1, 1, 2])
+        rng.shuffle(base)
+        bv = [M.cond_vec(B, A, sig) for B, A in base]
+        fin, inf = pysem.part(bv)
+        if not inf and fin:
+            break
+    else:
+        return None
+    fal = lambda c: M.And(c[1], M.Not(c[0])) if c[1] != M.TOP else M.Not(c[0])
+    qs, seen = [], set()
+    cands = []
+    for i in range(k):
+        for j in range(k):
+            if i != j:
+                cands.append((fal(conds[i]), M.Or(fal(conds[i]), fal(conds[j]))))          # falsify i rather than j?
+                cands.append((M.Not(fal(conds[i])), M.Or(fal(conds[i]), fal(conds[j]))))
+    rng.shuffle(cands)
+    for _ in range(nq):
+        q = gen_cond(sig, rng)
+        cands.append((q["B"], q["A"]))
+    for (B, A) in cands:
+        t = M.render_cond(B, A)
+        if t not in seen:
+            seen.add(t)
+            qs.append({"vec": M.cond_vec(B, A, sig), "B": B, "A": A})
+        if len(qs) >= nq:
+            break
+    return {"sig": sig, "base": [{"vec": v, "B": B, "A": A} for v, (B, A) in zip(bv, base)], "qs": qs, "via": "api"}
+
+
 def gen_case_chain(rng, nq=12):
     """Specificity chains (exceptions of exceptions): bases with three or more tolerance layers over 4-5 atoms, with
     queries whose antecedents are arbitrary depth-2 formulas (biconditional-like shapes included)."""
